@@ -4,6 +4,7 @@ The fragment of the operations on which C05 is proved outright (`Properties/C05.
 replayed history how many of its steps lie inside the fragment.
 -/
 import Mmmbbb.Model.Step
+import Mmmbbb.Model.Ordered2
 namespace Mmmbbb
 
 /-- the fragment: every operation of the store except the two seeks and the creation of a
@@ -39,5 +40,42 @@ def fragOk (st : St) : Op → Prop
 
 instance (st : St) (op : Op) : Decidable (fragOk st op) := by
   cases op <;> unfold fragOk <;> infer_instance
+
+/-- the fragment with dead-letter policies: **every operation of the store except the two seeks** —
+    clock advances, topic creation and deletion, subscription creation with *any* configuration
+    (dead-letter policies, ordering, filters), deletion and expiry, snapshots, the delay injector,
+    publishes — single and batched, the clock may stand still between messages and between operations —,
+    pulls, nacks, deadline changes, acknowledgements of handed-out deliveries, the dead-letter sweep and
+    all six prune jobs.  The three jobs that delete delivery rows carry the one assumption about the SQL
+    engine the proof needs (`Ord2.tieClosed`, a decidable condition on the rows the job's `SELECT … LIMIT n`
+    returned): with a row they take the earlier rows of its key that share its publish time. -/
+def fragOkDL (st : St) : Op → Prop
+  | .advance d => 0 ≤ d
+  | .createTopic _ _ _ => True
+  | .deleteTopic _ => True
+  | .createSub _ _ => True
+  | .deleteSub _ => True
+  | .expireSubs _ _ => True
+  | .snapshot _ _ _ _ => True
+  | .deleteSnap _ => True
+  | .setDelay _ _ => True
+  | .publish _ tick _ => 0 ≤ tick
+  | .pull _ _ _ _ wait _ => 0 ≤ wait
+  | .ack ids => ∀ d ∈ st.db.dels, ids.contains d.id = true → 0 < d.attempts
+  | .nack _ _ _ => True
+  | .delay _ _ => True
+  | .dlSweep _ _ _ => True
+  | .pruneCompletedDeliveries _ _ v => Ord2.tieClosed st.db v = true
+  | .pruneExpiredDeliveries _ v => Ord2.tieClosed st.db v = true
+  | .pruneDeletedSubDeliveries _ _ v => Ord2.tieClosed st.db v = true
+  | .pruneCompletedMessages _ _ _ => True
+  | .pruneDeletedSubs _ _ _ => True
+  | .pruneDeletedTopics _ _ _ => True
+  | .seekTime _ _ => False
+  | .seekSnap _ _ => False
+
+instance (st : St) (op : Op) : Decidable (fragOkDL st op) := by
+  cases op <;> unfold fragOkDL <;> infer_instance
+
 
 end Mmmbbb
